@@ -158,6 +158,16 @@ ASSUMPTIONS = [
     "alter_sequence that propose another order are generated in every quick run)",
     "Python attribute lookup (hasattr/callable/isinstance) is represented by capability flags read from the real objects; "
     "a callable attribute is assumed to have the arity its caller uses",
+    "seed round K: elements that are instances of user SUBCLASSES (overriding run / __call__ / compute) of Sequence, Split, "
+    "Filter, Slice, Count, Reverse, RunIf, Sum/Mean/StoreFilled and of the synthetic classes have no model side (to the "
+    "model and the theorems such an element is one more element with a run method: Spec run elements); they are judged by "
+    "the hand-chained reference (post-processing of the base object's own transformation, no subclass of a lena class) and "
+    "by equality of all groupings / Source cuts. Not generated: subclasses of lena.variables.Variable (own attribute "
+    "protocol) and subclass methods shadowed by the instance attributes run/fill/compute that adapters.Run/FillCompute bind "
+    "in their constructor (there the instance attribute IS the element's run). Observation, unchanged code, outside the "
+    "statement: meta.flatten dissolves every LenaSequence instance, also one of a subclass with its own run (reached only "
+    "through Split's alter_sequence when an element proposes a changed sequence); the flatten comparison is therefore not "
+    "made for these cases",
 ]
 RULE = ("exhaustive: capability flags (run, __call__, fill, compute, _has_no_data, __iter__, fill_into, _can_break_flow, "
         "request, Split) of every vocabulary kind and of all 108 synthetic classes (run/fill/compute in {absent, non-callable, "
@@ -195,7 +205,12 @@ RULE = ("exhaustive: capability flags (run, __call__, fill, compute, _has_no_dat
         "elements whose alter_sequence proposes another order in Sequence branches of Split (fixed cases + 30 % of the sampled); "
         "a first element of a Source that is neither callable nor iterable (None, a plain object, an object with __getitem__ "
         "only); plain callables with bool / dict / bytes / tuple results and such values (500 / 8000 programs without a model "
-        "side); one element's own run on every kind of flow object against Stored.runObj. Non-trivial: at least two data elements and (a value yielded or an exception).")
+        "side); one element's own run on every kind of flow object against Stored.runObj. Seed round K: instances of user subclasses "
+        "(overriding run / __call__ / compute: yield twice, tag, drop repeats) of 21 base elements (Sequence of several shapes, Split, Filter, "
+        "Slice, Count, Reverse, accumulators, RunIf, synthetic run / call / fill-compute classes, adapters) x 3 overrides between two "
+        "callables in ALL groupings + unary / empty nestings and in the tail of a Source at every cut, alone, nested by the caller, "
+        "inside a subclass instance, run repeatedly; sampled 250 + 60 + 60 (thorough 4000 + 1000 + 1000) programs with 1-2 such "
+        "elements (subclass instances of Sequence inside subclass instances of Sequence to depth 3). Non-trivial: at least two data elements and (a value yielded or an exception).")
 CASE_TIMEOUT = 10
 
 # ----------------------------------------------------------------------------------------
@@ -654,6 +669,83 @@ def syn_alt_class(hasrun, alt):
     return _SYN_CACHE[key]
 
 
+# ---- user subclasses of lena's classes (and of the synthetic ones) that override the method Sequence dispatches on ----
+SUB_POSTS = ("twice", "tag", "dedup")
+
+
+def post_stream(post, it):
+    """what the overriding method of a subclass does with the stream of the inherited method"""
+    if post == "twice":
+        for v in it:
+            yield v
+            yield v
+    elif post == "tag":
+        for v in it:
+            yield ["sub", v]
+    elif post == "dedup":            # drops a value equal (==) to the value before it
+        first, last = True, None
+        for v in it:
+            if first or not (v == last):
+                yield v
+            first, last = False, v
+    else:
+        raise ValueError(post)
+
+
+def sub_mode(fl):
+    """the method Sequence (through adapters.Run) uses for an element: the one the subclass overrides"""
+    return "run" if fl["run"] == 2 else "call" if fl["call"] else "fc" if (fl["fill"] == 2 and fl["compute"] == 2) else None
+
+
+def sub_effective(obj, mode):
+    """lena's adapters (Run, FillCompute, ...) bind run / fill / compute as INSTANCE attributes in their constructor:
+    a method of a subclass is shadowed there - the element's run is what the instance says; no subclass is made"""
+    name = {"run": "run", "fc": "compute"}.get(mode)
+    return mode is not None and not (name and name in getattr(obj, "__dict__", {}))
+
+
+def sub_class(base, mode, post):
+    """a subclass of `base` (Sequence, Split, Filter, Sum, adapters.Run, a synthetic class, ...) written the way a user
+    writes one: it overrides run / __call__ / compute and post-processes what the inherited method gives"""
+    key = ("sub", base, mode, post)
+    if key not in _SYN_CACHE:
+        if mode == "run":
+            class Sub(base):
+                def run(self, flow):
+                    for v in post_stream(post, super(Sub, self).run(flow)):
+                        yield v
+        elif mode == "call":
+            class Sub(base):
+                def __call__(self, value):
+                    return ["sub", super(Sub, self).__call__(value)]
+        else:
+            class Sub(base):
+                def compute(self):
+                    for v in post_stream(post, super(Sub, self).compute()):
+                        yield v
+        Sub.__name__ = "Sub_%s_%s_%s" % (base.__name__, mode, post)
+        _SYN_CACHE[key] = Sub
+    return _SYN_CACHE[key]
+
+
+class _RefRun(object):
+    def __init__(self, run):
+        self.run = run
+
+
+class _RefCall(object):
+    def __init__(self, f):
+        self.f = f
+
+    def __call__(self, value):
+        return self.f(value)
+
+
+class _RefFC(object):
+    def __init__(self, fill, compute):
+        self.fill, self.compute = fill, compute
+
+
 def build(spec):
     """the real object denoted by a spec; constructors may raise (Python evaluation order: left to right, inner first)"""
     import lena.core
@@ -691,6 +783,14 @@ def build(spec):
         raise ValueError(a)
     if k == "seq":
         return lena.core.Sequence(*[build(s) for s in spec["els"]])
+    if k == "sub":
+        # an instance of a user subclass of the class of build(spec["of"]): constructed by the inherited constructor
+        obj = build(spec["of"])
+        mode = sub_mode(flags_of(obj))
+        if not sub_effective(obj, mode):
+            return obj
+        obj.__class__ = sub_class(type(obj), mode, spec["post"])
+        return obj
     if k == "split":
         return lena.core.Split([tuple(build(s) for s in b) for b in spec["branches"]], bufsize=spec["bufsize"])
     if k == "run":
@@ -991,6 +1091,26 @@ def ref_object(spec):
         return _Virtual(gen_run)
     if k == "runnonebad":
         raise _Skip("run not callable")
+    if k == "sub":
+        # no subclass of a lena class here: a plain object whose transformation is the post-processing of the
+        # transformation of the (fresh) base object
+        inner, post = ref_object(spec["of"]), spec["post"]
+        mode = sub_mode(flags_of(inner))
+        if not sub_effective(inner, mode):
+            return inner
+        if mode == "run":
+            def run_(flow):                  # a generator function, as the method of the subclass is
+                for v in post_stream(post, inner.run(flow)):
+                    yield v
+            return _RefRun(run_)
+        if mode == "call":
+            return _RefCall(lambda v: ["sub", inner(v)])
+        if mode == "fc":
+            def compute_():
+                for v in post_stream(post, inner.compute()):
+                    yield v
+            return _RefFC(inner.fill, compute_)
+        return inner
     return build(spec)
 
 
@@ -1045,7 +1165,7 @@ def run_impl(case):
         els, flow, term = case["els"], case["flow"], case.get("term")
         res = {"variants": [run_variant(els, b, flow, term, bool(case.get("lst")), case.get("share"), case.get("kind"))
                             for b in case["brks"]],
-               "flat": [run_flat(els, b, flow, term) for b in case["brks"][:2]],
+               "flat": [] if case.get("noflat") else [run_flat(els, b, flow, term) for b in case["brks"][:2]],
                "facts": [{k: v for k, v in f.items() if k != "flags"} for f in element_facts(els)],
                "ref": reference(els, flow, term, case.get("share")),
                "shape": shape_of(els, case["brks"][-1])}
@@ -1280,7 +1400,7 @@ def model_free(case):
     """does the case use Python objects the model has no description for (plain callables with bool / dict / bytes
     results, bool / bytes values)?  Then it has no model side: the direct oracle judges it"""
     for o in _walk(case):
-        if isinstance(o, dict) and (o.get("k") == "callp" or "bool" in o or "bytes" in o):
+        if isinstance(o, dict) and (o.get("k") in ("callp", "sub") or "bool" in o or "bytes" in o):
             return True
     return False
 
@@ -2134,6 +2254,93 @@ def _floaty_conflict_old(els):
     return False
 
 
+# ---- elements that are instances of user SUBCLASSES of lena's classes -------------------------------------------
+SUBABLE = ("seq", "split", "filter", "slice", "count", "reverse", "acc", "runif", "syn", "run", "runnone", "runalt",
+           "runnamed", "filterx", "synraise")
+
+
+def sub_bases():
+    inc = {"k": "call", "f": "inc"}
+    return [{"k": "seq", "els": [{"k": "call", "f": "mod3"}]}, {"k": "seq", "els": []},
+            {"k": "seq", "els": [inc, {"k": "filter", "p": "even"}]}, {"k": "seq", "els": [{"k": "acc", "a": "sum"}]},
+            {"k": "seq", "els": [{"k": "seq", "els": [{"k": "call", "f": "mod3"}]}, {"k": "count", "name": "n"}]},
+            {"k": "split", "branches": [[inc], [{"k": "slice", "args": [1]}]], "bufsize": 2},
+            {"k": "filter", "p": "even"}, {"k": "slice", "args": [1, 4]}, {"k": "count", "name": "n"},
+            {"k": "reverse"}, {"k": "acc", "a": "sum"},
+            {"k": "acc", "a": "store", "group": False}, {"k": "acc", "a": "count", "name": "n"},
+            {"k": "runif", "p": "even", "inner": [inc]},
+            {"k": "syn", "run": 2, "call": False, "fill": 0, "compute": 0, "nodata": False},
+            {"k": "syn", "run": 0, "call": True, "fill": 0, "compute": 0, "nodata": False},
+            {"k": "syn", "run": 0, "call": False, "fill": 2, "compute": 2, "nodata": False},
+            {"k": "run", "el": {"k": "call", "f": "mod3"}}, {"k": "run", "el": {"k": "acc", "a": "sum"}},
+            {"k": "runnone", "f": "mod3"}, {"k": "runalt", "hasrun": True, "alt": 2}]
+
+
+def gen_sub(rng, st, depth=0):
+    """a spec of an instance of a subclass (overriding run / __call__ / compute) of the class of a generated element"""
+    if rng.random() < 0.5:
+        els = []
+        for _e in range(rng.choice([0, 1, 1, 2, 3])):
+            els.append(gen_sub(rng, st, depth + 1) if depth < 2 and rng.random() < 0.2 else gen_elem(rng, st, depth + 1))
+        of = {"k": "seq", "els": els}
+    else:
+        for _try in range(30):
+            of = gen_elem(rng, st, depth + 1)
+            if of["k"] in SUBABLE and not (of["k"] == "syn" and of["nodata"]):
+                break
+        else:
+            of = {"k": "seq", "els": [{"k": "call", "f": "mod3"}]}
+    return {"k": "sub", "of": of, "post": rng.choice(SUB_POSTS)}
+
+
+def gen_sub_prog(rng, n, rerun=False):
+    st = new_state(rerun=True) if rerun else new_state()
+    els = [gen_elem(rng, st, 0) for _e in range(n)]
+    for i in rng.sample(range(n), rng.choice([1, 1, 2]) if n > 1 else 1):
+        e = gen_sub(rng, st)
+        r = rng.random()
+        if r < 0.2:
+            e = {"k": "seq", "els": [e]}                     # nested by the caller, not only by the bracketing
+        elif r < 0.3:
+            e = {"k": "seq", "els": [gen_elem(rng, st, 1), e]}
+        els[i] = e
+    return els
+
+
+def sub_cases(rng, thorough):
+    inc, wrap = {"k": "call", "f": "inc"}, {"k": "call", "f": "wrap"}
+    flow = [0, 1, 2, 3, 4, 5, 8]
+    brks3 = all_bracketings(3) + [[0, [1], 2], [[0, [[1]]], 2], [[], 0, 1, [], 2]]
+    for base in sub_bases():
+        for post in SUB_POSTS:
+            sub = {"k": "sub", "of": base, "post": post}
+            yield {"op": "regroup", "els": [inc, sub, inc], "flow": flow, "term": None, "brks": brks3, "noflat": True}
+            yield {"op": "source", "first": {"k": "gen", "flow": flow}, "els": [inc, sub, inc], "cuts": [0, 1, 2, 3, 4]}
+        sub = {"k": "sub", "of": base, "post": "twice"}
+        yield {"op": "regroup", "els": [sub], "flow": flow, "term": None, "brks": [[0], [[0]], [[], [0]]], "noflat": True}
+        yield {"op": "regroup", "els": [inc, {"k": "seq", "els": [sub]}, wrap], "flow": flow, "term": "LenaValueError",
+               "brks": [[0, 1, 2], [[0, 1], 2], [0, [1, 2]]], "noflat": True}
+        yield {"op": "regroup", "els": [{"k": "sub", "of": {"k": "seq", "els": [sub, inc]}, "post": "dedup"}, sub],
+               "flow": flow, "term": None, "brks": [[0, 1], [[0], 1], [[0, 1]]], "noflat": True}
+        yield {"op": "rerun", "els": [inc, sub], "pasts": [[1, 2]], "flow": [3, 4, 4], "cut": 1}
+    for _ in range(250 if not thorough else 4000):
+        n = rng.choice([1, 2, 2, 3, 3, 4, 5])
+        case = {"op": "regroup", "els": gen_sub_prog(rng, n), "flow": gen_flow(rng), "term": gen_term(rng),
+                "brks": [flat_bracketing(n)] + [random_bracketing(rng, n) for _b in range(3)], "noflat": True}
+        kd = gen_kind(rng, case["term"], 0.3)
+        if kd:
+            case["kind"] = kd
+        yield case
+    for _ in range(60 if not thorough else 1000):
+        n = rng.choice([1, 2, 3, 4])
+        first = {"k": "gen", "flow": gen_flow(rng)} if rng.random() < 0.6 else {"k": "iter", "flow": gen_flow(rng)}
+        yield {"op": "source", "first": first, "els": gen_sub_prog(rng, n), "cuts": list(range(n + 2))}
+    for _ in range(60 if not thorough else 1000):
+        n = rng.choice([1, 2, 2, 3, 4])
+        yield {"op": "rerun", "els": gen_sub_prog(rng, n, rerun=True), "pasts": [gen_flow(rng, 5) for _p in range(rng.choice([1, 2]))],
+               "flow": gen_flow(rng, 5), "cut": rng.randint(0, n)}
+
+
 def gen_cases(ctx):
     rng = ctx.rng
     thorough = ctx.tier == "thorough"
@@ -2338,6 +2545,10 @@ def gen_cases(ctx):
         if kd:
             case["kind"] = kd
         yield (case)
+    # elements that are instances of user subclasses of Sequence / Split / Filter / Sum / Run / ... overriding the
+    # method a Sequence dispatches on (no model side: the reference post-processes the base element's transformation)
+    for case in sub_cases(rng, thorough):
+        yield case
     # one Sequence object run several times (its elements keep their state): the whole program is a rerun region
     n_rerun = 700 if not thorough else 12000
     for _ in range(n_rerun):
@@ -2502,7 +2713,10 @@ def _kinds(spec, out):
         out.append("syn:" + mode)
     else:
         out.append(k)
-    for s in spec.get("inner", []) + spec.get("els", []) + ([spec["el"]] if "el" in spec else []):
+    if k == "sub":
+        out.append("sub:" + spec["post"])
+    for s in spec.get("inner", []) + spec.get("els", []) + ([spec["el"]] if "el" in spec else []) + (
+            [spec["of"]] if "of" in spec else []):
         _kinds(s, out)
     for b in spec.get("branches", []):
         for s in b:
@@ -2606,6 +2820,12 @@ def shrink(case):
         for i, e in enumerate(case["els"]):
             if e["k"] in ("run", "runnamed"):
                 yield dict(case, els=case["els"][:i] + [e["el"]] + case["els"][i + 1:])
+            if e["k"] == "sub":
+                yield dict(case, els=case["els"][:i] + [e["of"]] + case["els"][i + 1:])
+                if e["of"].get("els"):
+                    for j in range(len(e["of"]["els"])):
+                        o2 = dict(e["of"], els=e["of"]["els"][:j] + e["of"]["els"][j + 1:])
+                        yield dict(case, els=case["els"][:i] + [dict(e, of=o2)] + case["els"][i + 1:])
             for sub in ("inner", "els"):
                 if e.get(sub):
                     for j in range(len(e[sub])):
